@@ -1,4 +1,4 @@
-import KalignModel.Props.C06
+import KalignModel.Props.PipelineFile
 #print axioms Kalign.IO.fasta_roundtrip
 #print axioms Kalign.IO.clu_roundtrip
 #print axioms Kalign.IO.msf_roundtrip
@@ -10,3 +10,4 @@ import KalignModel.Props.C06
 #print axioms Kalign.IO.msf_roundtrip_input
 #print axioms Kalign.IO.roundtrip_any
 #print axioms Kalign.IO.cross_format
+#print axioms Kalign.PipelineFile.kalignFile_roundtrip
